@@ -182,3 +182,37 @@ def guided_cases(ctx, prop, per_slice, d17=None):
             if len(b) > 5:
                 cases.append(plan_from_behaviour(n, b, ctx.seed * 7919 + k))
     return d17cases + cases
+
+
+# --------------------------------------------------------------------------------------------------------------
+# Reusable.tla: the singleton, its lock and _resize at the design level (C09, C10, C07 clause "resizes")
+RSLICES = {  # name: (Size, MaxTimeout, HasTimeout, CallbackSubmits, UserShutdown, invariants, expected violation)
+    "grow":    ("Sz12", 1, "TRUE", "FALSE", "FALSE", ["IdsGrow", "NeverBroken"], None),
+    "shrink":  ("Sz21", 1, "TRUE", "FALSE", "FALSE", ["IdsGrow", "NeverBroken"], None),
+    "tmo2":    ("Sz12", 2, "TRUE", "FALSE", "FALSE", ["IdsGrow", "NeverBroken"], None),
+    "cb":      ("Sz21", 0, "FALSE", "TRUE", "FALSE", ["IdsGrow"], None),
+    "stop":    ("Sz12", 0, "FALSE", "FALSE", "TRUE", ["IdsGrow"], None),
+    "cb_reach":   ("Sz21", 0, "FALSE", "TRUE", "FALSE", ["NoD6"], "NoD6"),
+    "stop_reach": ("Sz12", 0, "FALSE", "FALSE", "TRUE", ["NoD18"], "NoD18"),
+}
+
+
+def run_reusable_slices(ctx):
+    sw = json.load(open(os.path.join(tlc.SPECS, "code_switches.json")))
+    under = sw.get("SpawnUnderLock", "TRUE")
+    tlc.sany(ctx.work, "MC_Reusable")
+    for name, (size, mt, hast, cb, us, invs, expect) in RSLICES.items():
+        fn = "MC_Reusable_gen_%s.cfg" % name
+        with open(os.path.join(ctx.work, fn), "w") as fh:
+            fh.write("SPECIFICATION SpecF\nCONSTANTS\n  Callers = {\"c1\", \"c2\"}\n  Size <- %s\n  Pids = {\"p1\", \"p2\", \"p3\", \"p4\"}\n"
+                     "  MaxTimeout = %d\n  HasTimeout = %s\n  CallbackSubmits = %s\n  UserShutdown = %s\n  SpawnUnderLock = %s\n%s\n" % (
+                         size, mt, hast, cb, us, under, "\n".join("INVARIANT " + i for i in invs)))
+        res = tlc.check(ctx.work, "MC_Reusable", fn, workers=8, timeout=900, coverage=False)
+        ctx.add_tlc(res, "Reusable.tla slice %s (SpawnUnderLock=%s)" % (name, under))
+        if expect:
+            if not (res.violation and res.violation[1] == expect):
+                ctx.notes.append("Reusable.tla: the window %s is not reachable in slice %s (exemption vacuous)" % (expect, name))
+            else:
+                ctx.extra.setdefault("reusable_open_windows_reached", []).append(expect[2:])
+        elif res.violation:
+            raise runner.Machinery("Reusable.tla slice %s: TLC reports %s (spec-level): %s" % (name, res.violation, repr(res.trace[-1][1])[:1200] if res.trace else ""))
